@@ -303,6 +303,7 @@ class C02(Check):
 
 class C03(Check):
     id = 'C03'
+    expected_probes = ('second-call-same-lab',)
 
     def gen(self, ch, tier):
         return gen_scenario(ch, backends=ALL_BACKENDS, cache='always', bust=True)
@@ -313,6 +314,48 @@ class C03(Check):
             what = out.exc['type'] if out.exc else out.abort
             vs.append(O.V('C03', 'no-return', f'run_tasks did not return: {out.kind} {what}', exc=what))
         return vs
+
+    def run(self, ch, workdir, tier):
+        """One run_tasks call; in a third of the cases a second call on the same Lab object and the
+        same task objects with another request list: what the first call cached must now be loaded."""
+        sc = self.gen(ch, tier)
+        cfg = ch.stream('config')
+        d = tempfile.mkdtemp(dir=workdir)
+        session: dict = {}
+        second = False
+        try:
+            out = execute(sc, ch, d, session=session)
+            if out.kind == 'warmup-failed':
+                vs = [O.V(self.id, 'earlier-run-failed', f'the earlier serial run that creates the cache pre-state failed: '
+                          f'{out.exc["type"]}: {out.exc["msg"][:200]}', exc=out.exc['type'])]
+            else:
+                facts = O.Facts(sc, out)
+                vs = self.oracle(sc, out, facts)
+                if not vs and out.kind == 'return' and cfg.chance(1, 3):
+                    ref = facts.ref
+                    now_cached = sorted(set(i for i in sc.get('cached', []) if ref.cacheable(i)) |
+                                        {n for n in facts.executed if ref.cacheable(n)})
+                    roots = [n['id'] for n in sc['nodes'] if cfg.chance(1, 2)] or [sc['nodes'][-1]['id']]
+                    sc2 = {k: v for k, v in sc.items() if k not in ('bust_cache', 'run_task')}
+                    sc2.update({'requested': [[i, 1 if cfg.chance(1, 3) else 0] for i in roots], 'cached': now_cached,
+                                'skip_warm': True, 'gen_pre': sc.get('gen_main', 1)})
+                    out2 = execute(sc2, ch, d, built=out.built, session=session)
+                    second = True
+                    if out2.kind == 'return':
+                        facts2 = O.Facts(sc2, out2)
+                        for v in O.check_C03(sc2, out2, facts2):
+                            v['detail'] = '[second run_tasks call on the same Lab object] ' + v['detail']
+                            v['sig']['second_call'] = True
+                            vs.append(v)
+        finally:
+            st = session.get('sim_storage')
+            if st is not None:
+                st.release()
+            shutil.rmtree(d, ignore_errors=True)
+        r = self.record(sc, out, vs, ch)
+        if second:
+            r['probes']['second-call-same-lab'] = 1
+        return r
 
 
 class C04(Check):
